@@ -1095,6 +1095,27 @@ func runDet3(m *Model, r *RuleResult) {
 						}
 						return n > 0
 					}
+					// a helper of the module that returns an order-preserving sub-sequence of one of its slice parameters
+					// (a generic Filter, a copy): the argument must itself be acceptable
+					if c := x.Call.StaticCallee(); c != nil && inModule(c) && len(c.Blocks) > 0 && c.Signature.Results().Len() == 1 {
+						for j, p := range c.Params {
+							if _, isSl := p.Type().Underlying().(*types.Slice); !isSl || j >= len(x.Call.Args) {
+								continue
+							}
+							n, all := 0, true
+							eachInstr(c, func(in ssa.Instruction) {
+								if ret, ok := in.(*ssa.Return); ok && len(ret.Results) == 1 {
+									n++
+									if !isOrderPreservingSubseq(ret.Results[0], p, map[ssa.Value]bool{}) {
+										all = false
+									}
+								}
+							})
+							if n > 0 && all {
+								return okVal(x.Call.Args[j])
+							}
+						}
+					}
 					why = "stored slice is the result of " + calleeFullName(&x.Call) + " (element order not derived from the input order)"
 					return false
 				case *ssa.MakeSlice:
@@ -1115,6 +1136,99 @@ func runDet3(m *Model, r *RuleResult) {
 			}
 		}
 	}
+}
+
+// isOrderPreservingSubseq: v is built from nothing but nil / a fresh slice and `append(acc, src[i])` with i an ascending loop
+// counter: a sub-sequence of src in src's order.
+func isOrderPreservingSubseq(v ssa.Value, src ssa.Value, seen map[ssa.Value]bool) bool {
+	if seen[v] {
+		return true
+	}
+	seen[v] = true
+	switch x := v.(type) {
+	case *ssa.Const:
+		return x.Value == nil
+	case *ssa.MakeSlice:
+		if c, ok := constInt(x.Len); ok && c == 0 {
+			return true
+		}
+		return false
+	case *ssa.Phi:
+		for _, e := range x.Edges {
+			if !isOrderPreservingSubseq(e, src, seen) {
+				return false
+			}
+		}
+		return true
+	case *ssa.Slice:
+		return isOrderPreservingSubseq(x.X, src, seen)
+	case *ssa.ChangeType:
+		return isOrderPreservingSubseq(x.X, src, seen)
+	case *ssa.Call:
+		b, ok := x.Call.Value.(*ssa.Builtin)
+		if !ok || b.Name() != "append" || len(x.Call.Args) != 2 || !isOrderPreservingSubseq(x.Call.Args[0], src, seen) {
+			return false
+		}
+		sl, ok := x.Call.Args[1].(*ssa.Slice)
+		if !ok {
+			return false
+		}
+		al, ok := sl.X.(*ssa.Alloc)
+		if !ok || al.Referrers() == nil {
+			return false
+		}
+		n := 0
+		for _, ref := range *al.Referrers() {
+			ia, ok := ref.(*ssa.IndexAddr)
+			if !ok || ia.Referrers() == nil {
+				continue
+			}
+			for _, r2 := range *ia.Referrers() {
+				st, ok := r2.(*ssa.Store)
+				if !ok {
+					continue
+				}
+				n++
+				u, ok := st.Val.(*ssa.UnOp)
+				if !ok || u.Op != token.MUL {
+					return false
+				}
+				ea, ok := u.X.(*ssa.IndexAddr)
+				if !ok || ea.X != src {
+					return false
+				}
+				// ascending counter: phi(+1) or phi+1
+				var phi *ssa.Phi
+				switch ix := ea.Index.(type) {
+				case *ssa.Phi:
+					phi = ix
+				case *ssa.BinOp:
+					if c, isC := constInt(ix.Y); isC && c == 1 && ix.Op == token.ADD {
+						phi, _ = ix.X.(*ssa.Phi)
+					}
+				}
+				if phi == nil {
+					return false
+				}
+				asc := false
+				for _, e := range phi.Edges {
+					if bo, isBin := e.(*ssa.BinOp); isBin && bo.Op == token.ADD {
+						if c, isC := constInt(bo.Y); isC && c == 1 {
+							asc = true
+						}
+					}
+					if bo, isBin := e.(*ssa.BinOp); isBin && bo.Op == token.SUB {
+						return false
+					}
+				}
+				if !asc {
+					return false
+				}
+			}
+		}
+		return n > 0
+	}
+	return false
 }
 
 // ---------- RO-1 ----------
